@@ -25,6 +25,7 @@ type LoopSpec struct {
 	Ordinal    int
 	Invariants []*Clause
 	Modifies   []string
+	Ghosts     []*GhostSet
 }
 
 type Contract struct {
@@ -73,6 +74,13 @@ var labelRe = regexp.MustCompile(`^\[([A-Za-z0-9_.,\-]+)\]\s*`)
 
 // parseContracts reads //@ lines from a file.
 // SpecDef is a global specification macro.
+// GhostSet is a ghost array update attached to a loop.
+type GhostSet struct {
+	Name  string
+	Index *Clause
+	Value *Clause
+}
+
 type SpecDef struct {
 	Name   string
 	Params []string
@@ -347,6 +355,17 @@ func parseContracts(path string) ([]*Contract, []*SpecDef, error) {
 			case "modifies":
 				ls.Modifies = append(ls.Modifies, strings.Fields(r3)...)
 				last = nil
+			case "ghost":
+				// ghost <name>[<index expr>] := <value expr>: a ghost array update executed at the end of every
+				// iteration (before the invariant is re-established); read in specs as ghost(<name>, <index>)
+				i1, i2, i3 := strings.Index(r3, "["), strings.Index(r3, "] :="), strings.Index(r3, ":=")
+				if i1 <= 0 || i2 < i1 || i3 < i2 {
+					return nil, nil, fmt.Errorf("%s:%d: ghost <name>[<index>] := <value>", path, ln)
+				}
+				g := &GhostSet{Name: strings.TrimSpace(r3[:i1]), Index: &Clause{Text: strings.TrimSpace(r3[i1+1 : i2]), Line: ln, Flags: map[string]bool{}},
+					Value: &Clause{Text: strings.TrimSpace(r3[i3+2:]), Line: ln, Flags: map[string]bool{}}}
+				ls.Ghosts = append(ls.Ghosts, g)
+				last = g.Value
 			case "":
 				last = nil
 			default:
@@ -470,6 +489,9 @@ func parseContracts(path string) ([]*Contract, []*SpecDef, error) {
 		c.Lets = append(cp(src.Lets), c.Lets...)
 		for n, l := range src.Loops {
 			nl := &LoopSpec{Ordinal: n, Invariants: cp(l.Invariants)}
+			for _, g := range l.Ghosts {
+				nl.Ghosts = append(nl.Ghosts, &GhostSet{Name: g.Name, Index: cp([]*Clause{g.Index})[0], Value: cp([]*Clause{g.Value})[0]})
+			}
 			for _, m := range l.Modifies {
 				nl.Modifies = append(nl.Modifies, sub(m))
 			}
@@ -508,9 +530,15 @@ func parseContracts(path string) ([]*Contract, []*SpecDef, error) {
 		all := append(append(append([]*Clause{}, c.Requires...), c.Ensures...), c.Lets...)
 		for _, l := range c.Loops {
 			all = append(all, l.Invariants...)
+			for _, g := range l.Ghosts {
+				all = append(all, g.Index, g.Value)
+			}
 		}
 		for _, l := range c.Ranges {
 			all = append(all, l.Invariants...)
+			for _, g := range l.Ghosts {
+				all = append(all, g.Index, g.Value)
+			}
 		}
 		for _, ls := range c.LockInvs {
 			all = append(all, ls...)
